@@ -354,7 +354,21 @@ type fdCase struct {
 	// one holding stale non-zero values (the concurrent paths accumulate
 	// into it, the serial ones assign).
 	Dirty bool
+	// View > 0: the destination of Gradient/Jacobian/Hessian is a view (a
+	// sub-slice, Dense.Slice, SymDense.SliceSym) with View elements of padding
+	// on every side inside a parent filled with a sentinel; the parent outside
+	// the view must come back untouched from the serial and from the
+	// concurrent evaluation.
+	View int
+	// Scribble: the callback overwrites its argument after computing the
+	// value (the package evaluates on private copies "in case it is modified
+	// during the call"): the caller's x stays as it was and serial and
+	// concurrent evaluation still agree.
+	Scribble bool
 }
+
+// fdSentinel fills the parents of view destinations.
+const fdSentinel = -706250.125
 
 func fdFormula(i int) fd.Formula {
 	return []fd.Formula{fd.Forward, fd.Backward, fd.Central, fd.Forward2nd, fd.Backward2nd, fd.Central2nd}[i]
@@ -363,13 +377,14 @@ func fdFormula(i int) fd.Formula {
 func checkFD(c fdCase) *vk.Failure {
 	vk.Sample("fd-concurrent", c)
 	n := c.Dim
-	x := make([]float64, n)
-	for i := range x {
-		x[i] = float64(c.X[i]) / 4
+	x0 := make([]float64, n)
+	for i := range x0 {
+		x0[i] = float64(c.X[i]) / 4
 	}
 	if n >= 2 {
-		vk.NonTrivial("fd", c.Kind, c.Formula, n, c.X, c.Q, c.L, c.Step, c.Origin, c.Procs)
+		vk.NonTrivial("fd", c.Kind, c.Formula, n, c.X, c.Q, c.L, c.Step, c.Origin, c.Procs, c.Dirty, c.View, c.Scribble)
 	}
+	vk.Class(fmt.Sprintf("fd-kind%d-view=%v-scribble=%v", c.Kind, c.View > 0 && c.Kind <= 2, c.Scribble && c.Kind != 5))
 	// f(x) = x^T Q x + l^T x with small integer coefficients: every value on
 	// the stencil is exactly representable, so serial and concurrent results
 	// must agree bit for bit whatever the accumulation order.
@@ -395,17 +410,40 @@ func checkFD(c fdCase) *vk.Failure {
 		formula = fdFormula(c.Formula - 3)
 	}
 	type out struct {
-		vals  []float64
-		calls int64
+		vals    []float64
+		calls   int64
+		outside string // non-empty: an element outside a view destination was written
+		xmod    string // non-empty: the caller's x (or y) was modified
 	}
+	// late counts callbacks made after the routine returned (workers that are
+	// still winding down must not evaluate anything).
+	var late atomic.Int64
+	scribble := func(v []float64) {
+		if c.Scribble {
+			for i := range v {
+				v[i] = float64(100 + i)
+			}
+		}
+	}
+	pad := c.View
 	run := func(conc bool, y *yielder) (o out, err error) {
 		var calls atomic.Int64
-		f := func(v []float64) float64 {
+		var returned atomic.Bool
+		x := append([]float64(nil), x0...)
+		enter := func() {
 			calls.Add(1)
+			if returned.Load() {
+				late.Add(1)
+			}
 			if y != nil {
 				y.yield()
 			}
-			return qf(v)
+		}
+		f := func(v []float64) float64 {
+			enter()
+			r := qf(v)
+			scribble(v)
+			return r
 		}
 		set := &fd.Settings{Formula: formula, Step: step, Concurrent: conc}
 		if c.Origin && c.Kind != 1 {
@@ -415,17 +453,46 @@ func checkFD(c fdCase) *vk.Failure {
 		r := vk.Call(func() {
 			switch c.Kind {
 			case 0:
-				var dst []float64
-				if c.Dirty {
+				var dst, back []float64
+				if pad > 0 {
+					back = make([]float64, n+2*pad)
+					for i := range back {
+						back[i] = fdSentinel
+					}
+					dst = back[pad : pad+n]
+				} else if c.Dirty {
 					dst = make([]float64, n)
+				}
+				if c.Dirty {
 					for i := range dst {
 						dst[i] = float64(7 + i)
 					}
 				}
 				o.vals = fd.Gradient(dst, f, x, set)
+				if pad > 0 && &o.vals[0] != &dst[0] {
+					o.outside = "Gradient did not return the destination it was given"
+				}
+				for i, v := range back {
+					if (i < pad || i >= pad+n) && !vk.SameBits(v, fdSentinel) {
+						o.outside = fmt.Sprintf("element %d of the backing slice (dst = [%d:%d]) changed to %v", i, pad, pad+n, v)
+					}
+				}
 			case 1:
 				m := 3
 				dst := mat.NewDense(m, n, nil)
+				var parent *mat.Dense
+				if pad > 0 {
+					parent = mat.NewDense(m+2*pad, n+2*pad, nil)
+					for i := 0; i < m+2*pad; i++ {
+						for j := 0; j < n+2*pad; j++ {
+							parent.Set(i, j, fdSentinel)
+						}
+					}
+					dst = parent.Slice(pad, pad+m, pad, pad+n).(*mat.Dense)
+					if !c.Dirty {
+						dst.Zero()
+					}
+				}
 				if c.Dirty {
 					for i := 0; i < m; i++ {
 						for j := 0; j < n; j++ {
@@ -435,17 +502,42 @@ func checkFD(c fdCase) *vk.Failure {
 				}
 				js := &fd.JacobianSettings{Formula: formula, Step: step, Concurrent: conc}
 				fd.Jacobian(dst, func(yv, xv []float64) {
-					calls.Add(1)
-					if y != nil {
-						y.yield()
-					}
+					enter()
 					for k := range yv {
 						yv[k] = qf(xv) * float64(k+1)
 					}
+					scribble(xv)
 				}, x, js)
-				o.vals = append([]float64(nil), dst.RawMatrix().Data...)
+				for i := 0; i < m; i++ {
+					for j := 0; j < n; j++ {
+						o.vals = append(o.vals, dst.At(i, j))
+					}
+				}
+				if pad > 0 {
+					for i := 0; i < m+2*pad; i++ {
+						for j := 0; j < n+2*pad; j++ {
+							inside := i >= pad && i < pad+m && j >= pad && j < pad+n
+							if v := parent.At(i, j); !inside && !vk.SameBits(v, fdSentinel) {
+								o.outside = fmt.Sprintf("element (%d,%d) of the %dx%d parent (dst = rows %d:%d, columns %d:%d) changed to %v", i, j, m+2*pad, n+2*pad, pad, pad+m, pad, pad+n, v)
+							}
+						}
+					}
+				}
 			case 2:
 				dst := mat.NewSymDense(n, nil)
+				var parent *mat.SymDense
+				if pad > 0 {
+					parent = mat.NewSymDense(n+2*pad, nil)
+					for i := 0; i < n+2*pad; i++ {
+						for j := i; j < n+2*pad; j++ {
+							parent.SetSym(i, j, fdSentinel)
+						}
+					}
+					dst = parent.SliceSym(pad, pad+n).(*mat.SymDense)
+					if !c.Dirty {
+						dst.Zero()
+					}
+				}
 				if c.Dirty {
 					for i := 0; i < n; i++ {
 						for j := i; j < n; j++ {
@@ -459,15 +551,22 @@ func checkFD(c fdCase) *vk.Failure {
 						o.vals = append(o.vals, dst.At(i, j))
 					}
 				}
+				if pad > 0 {
+					for i := 0; i < n+2*pad; i++ {
+						for j := i; j < n+2*pad; j++ {
+							inside := i >= pad && i < pad+n && j >= pad && j < pad+n
+							if v := parent.At(i, j); !inside && !vk.SameBits(v, fdSentinel) {
+								o.outside = fmt.Sprintf("element (%d,%d) of the order-%d parent (dst = SliceSym(%d,%d)) changed to %v", i, j, n+2*pad, pad, pad+n, v)
+							}
+						}
+					}
+				}
 			case 5:
 				// scalar Derivative with any of the six formulas; with
 				// OriginKnown the origin term is added by the calling
 				// goroutine while workers add theirs
 				f1 := func(t float64) float64 {
-					calls.Add(1)
-					if y != nil {
-						y.yield()
-					}
+					enter()
 					return float64(c.Q[0])*t*t + float64(c.L[0])*t + 3
 				}
 				if c.Origin {
@@ -481,17 +580,29 @@ func checkFD(c fdCase) *vk.Failure {
 				for i := range yv {
 					yv[i] = x[(i+1)%n] + 0.5
 				}
+				yv0 := append([]float64(nil), yv...)
 				g := func(a, b []float64) float64 {
-					calls.Add(1)
-					if y != nil {
-						y.yield()
-					}
-					return qf(a) * (1 + b[0]) // bilinear-ish in (a, b[0])
+					enter()
+					r := qf(a) * (1 + b[0]) // bilinear-ish in (a, b[0])
+					scribble(a)
+					scribble(b)
+					return r
 				}
 				o.vals = []float64{fd.CrossLaplacian(g, x, yv, set)}
+				for i := range yv {
+					if !vk.SameBits(yv[i], yv0[i]) {
+						o.xmod = fmt.Sprintf("y[%d] = %v after the call, was %v", i, yv[i], yv0[i])
+					}
+				}
 			}
 		})
+		returned.Store(true)
 		o.calls = calls.Load()
+		for i := range x {
+			if !vk.SameBits(x[i], x0[i]) {
+				o.xmod = fmt.Sprintf("x[%d] = %v after the call, was %v", i, x[i], x0[i])
+			}
+		}
 		if r.Outcome != vk.Returned {
 			return o, errors.New(r.Text)
 		}
@@ -508,6 +619,20 @@ func checkFD(c fdCase) *vk.Failure {
 	if err != nil {
 		return vk.Failf("fd-concurrent-panic", "kind=%d: %v", c.Kind, err)
 	}
+	// the callback may write to its argument: it is handed a private copy
+	if so.xmod != "" {
+		return vk.Failf(fmt.Sprintf("fd-serial-modifies-x/kind%d", c.Kind), "kind=%d formula=%d originKnown=%v, callback overwrites its argument: serial evaluation: %s", c.Kind, c.Formula, c.Origin, so.xmod)
+	}
+	if co.xmod != "" {
+		return vk.Failf(fmt.Sprintf("fd-concurrent-modifies-x/kind%d", c.Kind), "kind=%d formula=%d originKnown=%v, callback overwrites its argument: concurrent evaluation: %s", c.Kind, c.Formula, c.Origin, co.xmod)
+	}
+	// a view destination: nothing outside it is written
+	if so.outside != "" {
+		return vk.Failf(fmt.Sprintf("fd-serial-writes-outside-dst/kind%d", c.Kind), "kind=%d formula=%d pad=%d: serial evaluation: %s", c.Kind, c.Formula, pad, so.outside)
+	}
+	if co.outside != "" {
+		return vk.Failf(fmt.Sprintf("fd-concurrent-writes-outside-dst/kind%d", c.Kind), "kind=%d formula=%d pad=%d GOMAXPROCS=%d: concurrent evaluation (the serial one leaves the parent alone): %s", c.Kind, c.Formula, pad, c.Procs, co.outside)
+	}
 	if co.calls != so.calls {
 		return vk.Failf(fmt.Sprintf("fd-concurrent-evaluations/kind%d", c.Kind), "kind=%d formula=%d originKnown=%v: %d evaluations concurrently, %d serially", c.Kind, c.Formula, c.Origin, co.calls, so.calls)
 	}
@@ -521,6 +646,11 @@ func checkFD(c fdCase) *vk.Failure {
 	}
 	if n, ok := goroutinesSettle(base); !ok {
 		return vk.Failf("fd-goroutine-leak", "%d goroutines before, %d after", base, n)
+	}
+	// Workers may still be winding down when a routine returns (fd.Gradient
+	// closes its quit channel on return); they must not evaluate f any more.
+	if l := late.Load(); l != 0 {
+		return vk.Failf("fd-call-after-return", "kind=%d: f was called %d times after the routine had returned", c.Kind, l)
 	}
 	vk.Extra("schedules_visited", 1)
 	return nil
@@ -538,12 +668,286 @@ func TestFDConcurrent(t *testing.T) {
 			Plan:    rapid.Uint64().Draw(t, "plan"),
 			Procs:   rapid.SampledFrom(procsList).Draw(t, "procs"),
 			Dirty:   rapid.Bool().Draw(t, "dirty"),
+			View:    rapid.SampledFrom([]int{0, 0, 1, 2, 3}).Draw(t, "view"),
 		}
+		c.Scribble = rapid.IntRange(0, 2).Draw(t, "scribble") == 0
 		c.X = rapid.SliceOfN(rapid.IntRange(-8, 8), n, n).Draw(t, "x")
 		c.L = rapid.SliceOfN(rapid.IntRange(-3, 3), n, n).Draw(t, "l")
 		c.Q = rapid.SliceOfN(rapid.IntRange(-2, 2), n*n, n*n).Draw(t, "q")
 		return c
 	}, checkFD)
+}
+
+// ---- diff/fd: two evaluations into disjoint blocks of one backing store ------------------
+
+// fdBlocksCase: two Gradients / Jacobians / Hessians are written into two
+// disjoint views of one sentinel-filled parent (sub-slices of one slice, two
+// column blocks of one Dense, two diagonal blocks of one SymDense), one after
+// the other or from two goroutines at once, with or without Concurrent. Each
+// block must hold exactly what the same call gives into a fresh destination
+// and everything outside the blocks must be left alone.
+type fdBlocksCase struct {
+	Kind       int // 0 Gradient 1 Jacobian 2 Hessian
+	Formula    int // 0 Forward 1 Backward 2 Central
+	N1, N2     int
+	M          int // Jacobian rows
+	Gap        int
+	X1, X2     []int
+	Q1, Q2     []int
+	Step       int
+	Concurrent bool
+	Parallel   bool
+	Plan       uint64
+	Procs      int
+}
+
+func checkFDBlocks(c fdBlocksCase) *vk.Failure {
+	vk.Sample("fd-disjoint-blocks", c)
+	vk.Class(fmt.Sprintf("fd-blocks-kind%d-concurrent=%v-parallel=%v", c.Kind, c.Concurrent, c.Parallel))
+	if c.Concurrent || c.Parallel {
+		vk.NonTrivial("fd-blocks", c.Kind, c.Formula, c.N1, c.N2, c.M, c.Gap, c.X1, c.X2, c.Q1, c.Q2, c.Step, c.Concurrent, c.Parallel, c.Procs)
+	}
+	ns := [2]int{c.N1, c.N2}
+	xs := [2][]float64{}
+	for k, X := range [2][]int{c.X1, c.X2} {
+		xs[k] = make([]float64, ns[k])
+		for i := range xs[k] {
+			xs[k][i] = float64(X[i]) / 4
+		}
+	}
+	qs := [2][]int{c.Q1, c.Q2}
+	y := &yielder{plan: c.Plan}
+	// exact data as in checkFD: quadratic forms with small integer coefficients
+	qf := func(k int) func(v []float64) float64 {
+		return func(v []float64) float64 {
+			y.yield()
+			n := ns[k]
+			s := 0.0
+			for i := 0; i < n; i++ {
+				for j := 0; j < n; j++ {
+					s += float64(qs[k][i*n+j]) * v[i] * v[j]
+				}
+				s += float64(k+1) * v[i]
+			}
+			return s
+		}
+	}
+	vf := func(k int) func(yv, xv []float64) {
+		f := qf(k)
+		return func(yv, xv []float64) {
+			r := f(xv)
+			for i := range yv {
+				yv[i] = r * float64(i+1+3*k)
+			}
+		}
+	}
+	step := math.Ldexp(1, -c.Step)
+	formula := fdFormula(c.Formula)
+	old := runtime.GOMAXPROCS(c.Procs)
+	defer runtime.GOMAXPROCS(old)
+	base := runtime.NumGoroutine()
+
+	// the two evaluations as closures writing into the destination views
+	// handed to them, and a reader for each destination
+	var (
+		eval    [2]func(conc bool)
+		read    [2]func() []float64
+		fresh   [2]func() // point the evaluation at a fresh private destination
+		shared  func()    // point both at views of one parent
+		outside func() string
+	)
+	off := [2]int{c.Gap, 2*c.Gap + c.N1} // offsets of the blocks (columns / indices)
+	total := 3*c.Gap + c.N1 + c.N2
+	inBlock := func(i int) int {
+		for k := 0; k < 2; k++ {
+			if i >= off[k] && i < off[k]+ns[k] {
+				return k
+			}
+		}
+		return -1
+	}
+	switch c.Kind {
+	case 0:
+		var dst [2][]float64
+		var back []float64
+		for k := 0; k < 2; k++ {
+			k := k
+			eval[k] = func(conc bool) {
+				fd.Gradient(dst[k], qf(k), xs[k], &fd.Settings{Formula: formula, Step: step, Concurrent: conc})
+			}
+			read[k] = func() []float64 { return append([]float64(nil), dst[k]...) }
+			fresh[k] = func() { dst[k] = make([]float64, ns[k]) }
+		}
+		shared = func() {
+			back = make([]float64, total)
+			for i := range back {
+				back[i] = fdSentinel
+			}
+			for k := 0; k < 2; k++ {
+				dst[k] = back[off[k] : off[k]+ns[k]]
+			}
+		}
+		outside = func() string {
+			for i, v := range back {
+				if inBlock(i) < 0 && !vk.SameBits(v, fdSentinel) {
+					return fmt.Sprintf("element %d of the backing slice changed to %v", i, v)
+				}
+			}
+			return ""
+		}
+	case 1:
+		var dst [2]*mat.Dense
+		var parent *mat.Dense
+		for k := 0; k < 2; k++ {
+			k := k
+			eval[k] = func(conc bool) {
+				fd.Jacobian(dst[k], vf(k), xs[k], &fd.JacobianSettings{Formula: formula, Step: step, Concurrent: conc})
+			}
+			read[k] = func() []float64 {
+				var out []float64
+				for i := 0; i < c.M; i++ {
+					for j := 0; j < ns[k]; j++ {
+						out = append(out, dst[k].At(i, j))
+					}
+				}
+				return out
+			}
+			fresh[k] = func() { dst[k] = mat.NewDense(c.M, ns[k], nil) }
+		}
+		shared = func() {
+			parent = mat.NewDense(c.M, total, nil)
+			for i := 0; i < c.M; i++ {
+				for j := 0; j < total; j++ {
+					parent.Set(i, j, fdSentinel)
+				}
+			}
+			for k := 0; k < 2; k++ {
+				dst[k] = parent.Slice(0, c.M, off[k], off[k]+ns[k]).(*mat.Dense)
+			}
+		}
+		outside = func() string {
+			for i := 0; i < c.M; i++ {
+				for j := 0; j < total; j++ {
+					if v := parent.At(i, j); inBlock(j) < 0 && !vk.SameBits(v, fdSentinel) {
+						return fmt.Sprintf("element (%d,%d) of the parent, outside both destinations, changed to %v", i, j, v)
+					}
+				}
+			}
+			return ""
+		}
+	default:
+		var dst [2]*mat.SymDense
+		var parent *mat.SymDense
+		for k := 0; k < 2; k++ {
+			k := k
+			eval[k] = func(conc bool) {
+				fd.Hessian(dst[k], qf(k), xs[k], &fd.Settings{Formula: formula, Step: step, Concurrent: conc})
+			}
+			read[k] = func() []float64 {
+				var out []float64
+				for i := 0; i < ns[k]; i++ {
+					for j := i; j < ns[k]; j++ {
+						out = append(out, dst[k].At(i, j))
+					}
+				}
+				return out
+			}
+			fresh[k] = func() { dst[k] = mat.NewSymDense(ns[k], nil) }
+		}
+		shared = func() {
+			parent = mat.NewSymDense(total, nil)
+			for i := 0; i < total; i++ {
+				for j := i; j < total; j++ {
+					parent.SetSym(i, j, fdSentinel)
+				}
+			}
+			for k := 0; k < 2; k++ {
+				dst[k] = parent.SliceSym(off[k], off[k]+ns[k]).(*mat.SymDense)
+			}
+		}
+		outside = func() string {
+			for i := 0; i < total; i++ {
+				for j := i; j < total; j++ {
+					if v := parent.At(i, j); !(inBlock(i) >= 0 && inBlock(i) == inBlock(j)) && !vk.SameBits(v, fdSentinel) {
+						return fmt.Sprintf("element (%d,%d) of the parent, outside both destinations, changed to %v", i, j, v)
+					}
+				}
+			}
+			return ""
+		}
+	}
+	var want [2][]float64
+	r := vk.Call(func() {
+		for k := 0; k < 2; k++ {
+			fresh[k]()
+			eval[k](false)
+			want[k] = read[k]()
+		}
+		shared()
+		if c.Parallel {
+			var wg sync.WaitGroup
+			start := make(chan struct{})
+			for k := 0; k < 2; k++ {
+				wg.Add(1)
+				go func(k int) {
+					defer wg.Done()
+					<-start
+					eval[k](c.Concurrent)
+				}(k)
+			}
+			close(start)
+			wg.Wait()
+		} else {
+			eval[1](c.Concurrent)
+			eval[0](c.Concurrent)
+		}
+	})
+	if r.Outcome != vk.Returned {
+		return vk.Failf("fd-blocks-panic", "kind=%d: %s", c.Kind, r.Text)
+	}
+	how := "one after the other (second block first)"
+	if c.Parallel {
+		how = "from two goroutines"
+	}
+	for k := 0; k < 2; k++ {
+		got := read[k]()
+		for i := range want[k] {
+			if !vk.SameBits(got[i], want[k][i]) && !(got[i] == 0 && want[k][i] == 0) {
+				return vk.Failf(fmt.Sprintf("fd-blocks-crosstalk/kind%d", c.Kind), "kind=%d concurrent=%v GOMAXPROCS=%d, two evaluations into disjoint views of one parent %s: block %d element %d = %v, the same call into a fresh destination gives %v", c.Kind, c.Concurrent, c.Procs, how, k, i, got[i], want[k][i])
+			}
+		}
+	}
+	if msg := outside(); msg != "" {
+		return vk.Failf(fmt.Sprintf("fd-blocks-outside-written/kind%d", c.Kind), "kind=%d concurrent=%v GOMAXPROCS=%d, two evaluations into disjoint views of one parent %s: %s", c.Kind, c.Concurrent, c.Procs, how, msg)
+	}
+	if n, ok := goroutinesSettle(base); !ok {
+		return vk.Failf("fd-blocks-goroutine-leak", "%d goroutines before, %d after", base, n)
+	}
+	vk.Extra("schedules_visited", 1)
+	return nil
+}
+
+func TestFDDisjointBlocks(t *testing.T) {
+	vk.Run(t, "fd-disjoint-blocks", vk.Opts{Quick: 2400, Thorough: 40000}, func(t *rapid.T) fdBlocksCase {
+		c := fdBlocksCase{
+			Kind:       rapid.IntRange(0, 2).Draw(t, "kind"),
+			Formula:    rapid.IntRange(0, 2).Draw(t, "formula"),
+			N1:         rapid.IntRange(1, 4).Draw(t, "n1"),
+			N2:         rapid.IntRange(1, 4).Draw(t, "n2"),
+			M:          rapid.IntRange(1, 4).Draw(t, "m"),
+			Gap:        rapid.IntRange(0, 2).Draw(t, "gap"),
+			Step:       rapid.IntRange(1, 6).Draw(t, "step"),
+			Concurrent: rapid.Bool().Draw(t, "concurrent"),
+			Parallel:   rapid.Bool().Draw(t, "parallel"),
+			Plan:       rapid.Uint64().Draw(t, "plan"),
+			Procs:      rapid.SampledFrom(procsList).Draw(t, "procs"),
+		}
+		c.X1 = rapid.SliceOfN(rapid.IntRange(-8, 8), c.N1, c.N1).Draw(t, "x1")
+		c.X2 = rapid.SliceOfN(rapid.IntRange(-8, 8), c.N2, c.N2).Draw(t, "x2")
+		c.Q1 = rapid.SliceOfN(rapid.IntRange(-2, 2), c.N1*c.N1, c.N1*c.N1).Draw(t, "q1")
+		c.Q2 = rapid.SliceOfN(rapid.IntRange(-2, 2), c.N2*c.N2, c.N2*c.N2).Draw(t, "q2")
+		return c
+	}, checkFDBlocks)
 }
 
 // ---- optimize ----------------------------------------------------------------------------
@@ -809,6 +1213,218 @@ func TestOptimizeConcurrent(t *testing.T) {
 			Procs:      rapid.SampledFrom(procsList).Draw(t, "procs"),
 		}
 	}, checkOpt)
+}
+
+// ---- optimize: exact ties -----------------------------------------------------------------
+
+// tieCase: ListSearch and GuessAndCheck on an objective with plateaus, so
+// that several distinct locations attain the minimal value exactly. The
+// evaluations are started in a fixed order (list rows; samples of the Rander)
+// and every evaluation that was started is reported, so the set of evaluated
+// points is a prefix of that order; the serial run over the same prefix
+// returns the first of the minimal points. That location must be returned
+// whatever Settings.Concurrent is and in whatever order the workers finish.
+type tieCase struct {
+	Method     int // 0 ListSearch 1 GuessAndCheck
+	Dim        int
+	Rows       int
+	Mode       int // 0 floor(|x|_1/Width) 1 constant 0 2 constant +Inf 3 constant NaN (2, 3: ListSearch only)
+	Width      int
+	Limit      int // FuncEvaluations limit (0: none, ListSearch only)
+	Concurrent int
+	Slow       int // the Slow-th evaluation started is delayed (schedule perturbation only)
+	Seed       uint64
+	Plan       uint64
+	Procs      int
+}
+
+type recRander struct {
+	inner distmv.Rander
+	seq   [][]float64
+}
+
+func (r *recRander) Rand(x []float64) []float64 {
+	x = r.inner.Rand(x)
+	r.seq = append(r.seq, append([]float64(nil), x...))
+	return x
+}
+
+func sameVec(a, b []float64) bool {
+	if len(a) != len(b) {
+		return false
+	}
+	for i := range a {
+		if !vk.SameBits(a[i], b[i]) {
+			return false
+		}
+	}
+	return true
+}
+
+func checkTie(c tieCase) *vk.Failure {
+	vk.Sample("optimize-ties", c)
+	name := []string{"ListSearch", "GuessAndCheck"}[c.Method]
+	vk.Class(fmt.Sprintf("tie/%s/mode%d", name, c.Mode))
+	if c.Concurrent >= 2 {
+		vk.NonTrivial("tie", c.Method, c.Dim, c.Rows, c.Mode, c.Width, c.Limit, c.Concurrent, c.Slow, c.Seed, c.Procs)
+	}
+	n := c.Dim
+	level := func(x []float64) float64 {
+		switch c.Mode {
+		case 1:
+			return 0
+		case 2:
+			return math.Inf(1)
+		case 3:
+			return math.NaN()
+		}
+		s := 0.0
+		for _, v := range x {
+			s += math.Abs(v)
+		}
+		return math.Floor(s / float64(c.Width))
+	}
+	old := runtime.GOMAXPROCS(c.Procs)
+	defer runtime.GOMAXPROCS(old)
+	base := runtime.NumGoroutine()
+
+	g := vk.NewSplitMix(c.Seed)
+	var method optimize.Method
+	var order func() [][]float64 // the points in the order their evaluations are started
+	if c.Method == 0 {
+		locs := mat.NewDense(c.Rows, n, nil)
+		for i := 0; i < c.Rows; i++ {
+			for j := 0; j < n; j++ {
+				locs.Set(i, j, float64(g.Intn(17)-8)/2)
+			}
+		}
+		method = &optimize.ListSearch{Locs: locs}
+		order = func() [][]float64 {
+			out := make([][]float64, c.Rows)
+			for i := range out {
+				out[i] = mat.Row(nil, i, locs)
+			}
+			return out
+		}
+	} else {
+		sigma := mat.NewSymDense(n, nil)
+		for i := 0; i < n; i++ {
+			sigma.SetSym(i, i, 4)
+		}
+		nrm, _ := distmv.NewNormal(make([]float64, n), sigma, rand.NewPCG(c.Seed, 31))
+		rr := &recRander{inner: nrm}
+		method = &optimize.GuessAndCheck{Rander: rr}
+		order = func() [][]float64 { return rr.seq }
+	}
+	y := &yielder{plan: c.Plan}
+	var mu sync.Mutex
+	var evaluated [][]float64
+	var started atomic.Int64
+	prob := optimize.Problem{Func: func(x []float64) float64 {
+		k := started.Add(1)
+		if int(k) == c.Slow+1 {
+			// hold this evaluation back so that later ones overtake it
+			z := 0.0
+			for i := 0; i < 20000; i++ {
+				z += math.Sqrt(float64(i))
+				if i%2000 == 0 {
+					runtime.Gosched()
+				}
+			}
+			_ = z
+		}
+		y.yield()
+		mu.Lock()
+		evaluated = append(evaluated, append([]float64(nil), x...))
+		mu.Unlock()
+		return level(x)
+	}}
+	settings := &optimize.Settings{Concurrent: c.Concurrent, Converger: optimize.NeverTerminate{}, FuncEvaluations: c.Limit}
+	var res *optimize.Result
+	var err error
+	r := vk.Call(func() { res, err = optimize.Minimize(prob, make([]float64, n), settings, method) })
+	if r.Outcome != vk.Returned {
+		return vk.Failf("opt-ties-panic/"+name, "%s concurrent=%d: %s", name, c.Concurrent, r.Text)
+	}
+	if err != nil || res == nil {
+		return vk.Failf("opt-ties-error/"+name, "%s concurrent=%d: result %v, error %v", name, c.Concurrent, res, err)
+	}
+	if _, ok := goroutinesSettle(base); !ok {
+		return vk.Failf("opt-ties-goroutine-leak/"+name, "%s concurrent=%d", name, c.Concurrent)
+	}
+	if res.Stats.FuncEvaluations != len(evaluated) {
+		return vk.Failf("opt-ties-stats/"+name, "%s concurrent=%d: Stats.FuncEvaluations=%d, objective called %d times", name, c.Concurrent, res.Stats.FuncEvaluations, len(evaluated))
+	}
+	// The serial answer over the evaluated points: the first point, in the
+	// order the evaluations were started, with the best value (ListSearch:
+	// any value beats NaN and the first value is taken whatever it is).
+	pts := order()
+	wasEvaluated := func(p []float64) bool {
+		for _, e := range evaluated {
+			if sameVec(e, p) {
+				return true
+			}
+		}
+		return false
+	}
+	best := -1
+	var bestF float64
+	nEval := 0
+	for i, p := range pts {
+		if !wasEvaluated(p) {
+			continue
+		}
+		nEval++
+		f := level(p)
+		if best == -1 || f < bestF || (math.IsNaN(bestF) && !math.IsNaN(f)) {
+			best, bestF = i, f
+		}
+	}
+	if best == -1 {
+		return vk.Failf("opt-ties-nothing-evaluated/"+name, "%s concurrent=%d limit=%d: no point of the list/sample sequence was evaluated (%d calls)", name, c.Concurrent, c.Limit, len(evaluated))
+	}
+	if c.Method == 0 && c.Limit == 0 && (nEval != c.Rows || len(evaluated) != c.Rows) {
+		return vk.Failf("opt-ties-list-not-exhausted/"+name, "ListSearch concurrent=%d without limits: %d of %d rows evaluated in %d calls (status %v)", c.Concurrent, nEval, c.Rows, len(evaluated), res.Status)
+	}
+	if !vk.SameBits(res.F, bestF) {
+		return vk.Failf("opt-ties-f/"+name, "%s concurrent=%d limit=%d: Result.F = %v, best evaluated value %v", name, c.Concurrent, c.Limit, res.F, bestF)
+	}
+	if !sameVec(res.X, pts[best]) {
+		tied := 0
+		for _, p := range pts {
+			if wasEvaluated(p) && (level(p) == bestF || (math.IsNaN(bestF) && math.IsNaN(level(p)))) {
+				tied++
+			}
+		}
+		return vk.Failf("opt-tie-order/"+name, "%s concurrent=%d GOMAXPROCS=%d limit=%d: %d evaluated points tie at the best value %v; Result.X = %v, but the first of them in evaluation order (what Concurrent=1 returns for the same evaluations) is point %d = %v", name, c.Concurrent, c.Procs, c.Limit, tied, bestF, res.X, best, pts[best])
+	}
+	vk.Extra("schedules_visited", 1)
+	return nil
+}
+
+func TestOptimizeTies(t *testing.T) {
+	vk.Run(t, "optimize-ties", vk.Opts{Quick: 2400, Thorough: 40000}, func(t *rapid.T) tieCase {
+		c := tieCase{
+			Method:     rapid.IntRange(0, 1).Draw(t, "method"),
+			Dim:        rapid.IntRange(1, 3).Draw(t, "dim"),
+			Rows:       rapid.IntRange(1, 12).Draw(t, "rows"),
+			Width:      rapid.SampledFrom([]int{1, 2, 4}).Draw(t, "width"),
+			Concurrent: rapid.IntRange(0, 8).Draw(t, "concurrent"),
+			Seed:       rapid.Uint64().Draw(t, "seed"),
+			Plan:       rapid.Uint64().Draw(t, "plan"),
+			Procs:      rapid.SampledFrom(procsList).Draw(t, "procs"),
+		}
+		if c.Method == 0 {
+			c.Mode = rapid.SampledFrom([]int{0, 0, 0, 1, 2, 3}).Draw(t, "mode")
+			c.Limit = rapid.SampledFrom([]int{0, 0, 0, 1, 2, 3, 5, 8}).Draw(t, "limit")
+			c.Slow = rapid.IntRange(0, c.Rows-1).Draw(t, "slow")
+		} else {
+			c.Mode = rapid.IntRange(0, 1).Draw(t, "mode")
+			c.Limit = rapid.IntRange(1, 30).Draw(t, "limit")
+			c.Slow = rapid.IntRange(0, c.Limit-1).Draw(t, "slow")
+		}
+		return c
+	}, checkTie)
 }
 
 // ---- independent use from many goroutines (shared workspace pools) -----------------------
